@@ -164,6 +164,9 @@ type S2 struct {
 	Is  []int
 	Fs  []float64
 	Bs  []bool
+	// varied only through the three slice configurations (not part of the list product)
+	Us   []uint64
+	F32s []float32
 }
 
 var (
@@ -307,13 +310,14 @@ func s2Values(quick bool) []any {
 	var out []any
 	sliceCfg := []S2{
 		{},
-		{Is: []int{-1}, Fs: []float64{-0.1}, Bs: []bool{true}},
-		{Is: []int{math.MinInt, math.MaxInt}, Fs: []float64{math.MaxFloat64, math.SmallestNonzeroFloat64}, Bs: []bool{true, false}},
+		{Is: []int{-1}, Fs: []float64{-0.1}, Bs: []bool{true}, Us: []uint64{math.MaxUint64}, F32s: []float32{-0.1}},
+		{Is: []int{math.MinInt, math.MaxInt}, Fs: []float64{math.MaxFloat64, math.SmallestNonzeroFloat64}, Bs: []bool{true, false},
+			Us: []uint64{0, math.MaxUint64}, F32s: []float32{math.MaxFloat32, math.SmallestNonzeroFloat32}},
 	}
 	add := func(sc S2) {
 		for _, c := range sliceCfg {
 			v := sc
-			v.Is, v.Fs, v.Bs = c.Is, c.Fs, c.Bs
+			v.Is, v.Fs, v.Bs, v.Us, v.F32s = c.Is, c.Fs, c.Bs, c.Us, c.F32s
 			out = append(out, v)
 		}
 	}
